@@ -234,6 +234,13 @@ class ConfigRun(object):
         tor.info['onions/current'] = lambda: ''
         tor.info['onions/detached'] = lambda: ''
         tor.info['version'] = lambda: tor.version
+        # (what a state tracker on the same connection asks for: this Tor has no circuits, streams or relays)
+        tor.info['ns/all'] = lambda: ''
+        tor.info['circuit-status'] = lambda: ''
+        tor.info['stream-status'] = lambda: ''
+        tor.info['address-mappings/all'] = lambda: ''
+        tor.info['entry-guards'] = lambda: ''
+        tor.info['process/pid'] = lambda: '4242'
         tor.setconf_policy = self.setconf_policy
         tor.on_setconf_applied = self.on_setconf_applied
         self.reject_left = self.ch.draw(3, 'nreject')
@@ -724,6 +731,13 @@ class ConfigRun(object):
         self.ops_left = 2 + ch.draw(self.P.get('max_ops', 30), 'nops') if self.prop == 'C10' else ch.draw(10, 'nops11')
         self.changes_left = ch.draw(4, 'nchg10') if self.prop == 'C10' else 1 + ch.draw(self.P.get('max_changes', 10), 'nchg11')
         self.proto = TorControlProtocol()
+        if ch.chance(1, 6, 'statetracker'):
+            # the application also tracks Tor's state on the same control connection (Tor.create_state() next to
+            # Tor.get_config()): its queries and event subscriptions share the connection with the view's
+            from txtorcon.torstate import TorState
+            sim.probe('state-tracker-on-the-same-connection')
+            self.state_tracker = TorState(self.proto)
+            self.state_tracker.post_bootstrap.addErrback(lambda f: sim.log('state-tracker-failed', f.type.__name__))
         self.conn = sim.net.attach(self.proto, self.tor)
         self.conn.seg_mode = ch.pick(['mixed', 'whole', 'mixed', 'whole', 'bytewise'], 'segmode')
         sim.add_source(self.tor_actions)
